@@ -41,7 +41,19 @@ def tag(g):
 
 
 def check_case(ct, case, seed):
-    """returns list of (key, message)"""
+    """returns list of (key, message); every case on row-major and on column-major copies of the same arrays"""
+    global arr
+    out = check_case_layout(ct, case, seed)
+    arr0 = arr
+    try:
+        arr = lambda vals, shape: np.asfortranarray(arr0(vals, shape))      # noqa: E731  (rank >= 2 always here)
+        out += [(k + ":colmajor", m + " [column-major input array]") for k, m in check_case_layout(ct, case, seed, "F")]
+    finally:
+        arr = arr0
+    return out
+
+
+def check_case_layout(ct, case, seed, layout="C"):
     out = []
     a, g = case["a"], case["a"]["g"]
     rng = np.random.RandomState(seed)
@@ -77,16 +89,16 @@ def check_case(ct, case, seed):
         if case["pol"] != "UNDEF" and unf and a["padv"][0] == 0:
             # cover count and adjointness
             kw = geom(g, False)
-            ones = np.ones(tuple(xs))
+            ones = np.ones(tuple(xs), order=layout)
             cover = np.array(case["cover"], dtype=np.float64).reshape(tuple(xs))
-            xr = rng.randn(*xs)
+            xr = np.array(rng.randn(*xs), order=layout)
             for i2c, c2i in (("im2col", "col2im"), ("im2col_v2", "col2im_v2"), ("im2col_fast", "col2im_fast")):
                 cols = getattr(ct, i2c)(ones, as_unfold=True, **kw)
                 back = getattr(ct, c2i)(cols, tuple(xs), **kw)
                 if not np.array_equal(back, cover):
                     out.append(("%s:cover:%s" % (c2i, tag(g)), "fold(unfold(1)) = %s, cover count %s" % (back.tolist(), cover.tolist())))
                 cx = getattr(ct, i2c)(xr, as_unfold=True, **kw)
-                yr = rng.randn(*cx.shape)
+                yr = np.array(rng.randn(*cx.shape), order=layout)
                 lhs = float((cx * yr).sum())
                 rhs = float((xr * getattr(ct, c2i)(yr, tuple(xs), **kw)).sum())
                 if abs(lhs - rhs) > 1e-9 * max(1.0, abs(lhs)):
